@@ -695,9 +695,9 @@ func (w *vWorld) applicable(e vEvent) bool {
 
 	switch e.Op {
 	case "open", "create":
-		return e.Text != ""
+		return true // the text may be empty: an empty document is one of the document states (it does not parse)
 	case "change":
-		return ex && e.Text != ""
+		return ex
 	case "delete":
 		return ex
 	case "rename":
